@@ -480,15 +480,29 @@ impl Compiler {
                 right,
             } => {
                 // If this expression is a combination of a constant & a variable, create an optimized instruction for it that skips the stack
-                match (&**left, &**right) {
-                    (Expr::Identifier(name), Expr::Int { value })
-                    | (Expr::Int { value }, Expr::Identifier(name)) => {
-                        let res = self.compile_const_var_infix_expression(name, *value, operator);
-                        if res.is_ok() {
-                            return res;
-                        }
+                // The optimized instructions compute `variable <op> constant`, so if the constant is the
+                // left operand the operator has to be mirrored (and can not be used if it has no mirror).
+                let optimized = match (&**left, &**right) {
+                    (Expr::Identifier(name), Expr::Int { value }) => {
+                        Some((name, *value, operator.clone()))
                     }
-                    _ => (),
+                    (Expr::Int { value }, Expr::Identifier(name)) => match operator {
+                        Operator::Add | Operator::Multiply | Operator::Eq | Operator::Neq => {
+                            Some((name, *value, operator.clone()))
+                        }
+                        Operator::Lt => Some((name, *value, Operator::Gt)),
+                        Operator::Lte => Some((name, *value, Operator::Gte)),
+                        Operator::Gt => Some((name, *value, Operator::Lt)),
+                        Operator::Gte => Some((name, *value, Operator::Lte)),
+                        _ => None,
+                    },
+                    _ => None,
+                };
+                if let Some((name, value, operator)) = optimized {
+                    let res = self.compile_const_var_infix_expression(name, value, &operator);
+                    if res.is_ok() {
+                        return res;
+                    }
                 }
 
                 // If that failed because we haven't implemented a specialized instruction yet, compile it as a sequence of normal instructions
